@@ -85,6 +85,36 @@ fn enc_soh(f: &open_hypergraphs::strict::OpenHypergraph<VecKind, usize, usize>) 
     Cv::<VecKind>::roh(f).enc()
 }
 
+// ---- op bodies: the calls into the real library, shared by the generator and the replay mode
+
+pub fn op_identity_map_arrow<K: HK>(a: &ROH) -> Sx
+where
+    K::Type<usize>: NaturalArray<K> + PartialEq,
+    K::Type<u64>: Array<K, u64> + PartialEq,
+{
+    let r = <StrictIdentity as StrictFunctor<K, usize, usize, usize, usize>>::map_arrow(&StrictIdentity, &Cv::<K>::oh(a));
+    ok(Cv::<K>::roh(&r).enc())
+}
+pub fn op_dyn_map_object(ov: usize, a1: &[usize]) -> Sx {
+    let d = to_dyn_functor(Fam { ov, pv: 0 });
+    let r = StrictFunctor::<VecKind, usize, usize, usize, usize>::map_object(&d, &Cv::<VecKind>::sf(a1));
+    ok(Cv::<VecKind>::rics(&r).enc())
+}
+pub fn op_dyn_map_arrow(ov: usize, pv: usize, a: &ROH) -> Sx {
+    let d = to_dyn_functor(Fam { ov, pv });
+    let r = StrictFunctor::<VecKind, usize, usize, usize, usize>::map_arrow(&d, &Cv::<VecKind>::oh(a));
+    ok(enc_soh(&r))
+}
+pub fn op_lax_functor_map_arrow(ov: usize, pv: usize, a: &RLf) -> Sx {
+    ok(enc_lf(&Fam { ov, pv }.map_arrow(&a.to_lf())))
+}
+pub fn op_lax_functor_try_map_arrow(ov: usize, pv: usize, a: &RLf) -> Sx {
+    opt(try_define_map_arrow(&Fam { ov, pv }, &a.to_lf()).map(|r| enc_lf(&r)))
+}
+pub fn op_lax_functor_map_arrow_witness(ov: usize, pv: usize, a: &RLf) -> Sx {
+    opt(map_arrow_witness(&Fam { ov, pv }, &a.to_lf()).map(|(r, w)| list(vec![enc_lf(&r), Cv::<VecKind>::ricf(&w).enc()])))
+}
+
 pub fn run_functor<K: HK>(c: &mut Ctx, count: usize)
 where
     K::Type<usize>: NaturalArray<K> + PartialEq,
@@ -95,10 +125,7 @@ where
         let f = gen::oh(&mut c.rng, &p);
         gen::knobs_oh(c, &f);
         let a = f.clone();
-        c.emit("functor.identity_map_arrow", vec![f.enc()], move || {
-            let r = <StrictIdentity as StrictFunctor<K, usize, usize, usize, usize>>::map_arrow(&StrictIdentity, &Cv::<K>::oh(&a));
-            ok(Cv::<K>::roh(&r).enc())
-        });
+        c.emit("functor.identity_map_arrow", vec![f.enc()], move || op_identity_map_arrow::<K>(&a));
     }
 }
 
@@ -114,28 +141,45 @@ pub fn run_dyn(c: &mut Ctx, count: usize) {
             0 => {
                 let a = gen::list_below(&mut c.rng, 5, 8);
                 let a1 = a.clone();
-                c.emit("functor.dyn_map_object", vec![n(ov), l(&a)], move || {
-                    let d = to_dyn_functor(Fam { ov, pv: 0 });
-                    let r = StrictFunctor::<VecKind, usize, usize, usize, usize>::map_object(&d, &Cv::<VecKind>::sf(&a1));
-                    ok(Cv::<VecKind>::rics(&r).enc())
-                });
+                c.emit("functor.dyn_map_object", vec![n(ov), l(&a)], move || op_dyn_map_object(ov, &a1));
             }
             1 | 2 | 3 => {
-                let f = gen::oh(&mut c.rng, &pp);
+                let mut f = gen::oh(&mut c.rng, &pp);
+                let (mut ov, mut pv) = (ov, pv);
+                if c.rng.chance(1, 4) {
+                    // every operation image edge-free (spider-only or identity): uniform node labels,
+                    // edge labels 2 or 3 mod 4, 1→1-ish arities where possible
+                    c.knob("functor:all-operation-images-edge-free");
+                    ov = 0;
+                    pv = 1;
+                    for x in f.h.w.iter_mut() {
+                        *x = 1;
+                    }
+                    for x in f.h.x.iter_mut() {
+                        *x = *c.rng.pick(&[2usize, 6, 3, 7]);
+                    }
+                    // identity images need equal source and target types: same arity
+                    let ss = f.h.s.segs();
+                    let mut ts = f.h.t.segs();
+                    let nn = f.h.w.len();
+                    for (e, lab) in f.h.x.iter().enumerate() {
+                        if lab % 4 == 3 && nn > 0 {
+                            let k = ss[e].len();
+                            ts[e] = (0..k).map(|_| c.rng.below(nn)).collect();
+                        }
+                    }
+                    f.h.t = RICF::from_segs(&ts, nn);
+                }
                 gen::knobs_oh(c, &f);
                 let a = f.clone();
-                c.emit("functor.dyn_map_arrow", vec![n(ov), n(pv), f.enc()], move || {
-                    let d = to_dyn_functor(Fam { ov, pv });
-                    let r = StrictFunctor::<VecKind, usize, usize, usize, usize>::map_arrow(&d, &Cv::<VecKind>::oh(&a));
-                    ok(enc_soh(&r))
-                });
+                c.emit("functor.dyn_map_arrow", vec![n(ov), n(pv), f.enc()], move || op_dyn_map_arrow(ov, pv, &a));
             }
             4 | 5 => {
                 let pending = c.rng.chance(1, 3);
                 let mut f = gen_lf(c, pending, true);
                 relabel(c, &mut f);
                 let a = f.clone();
-                c.emit("lax.functor.map_arrow", vec![n(ov), n(pv), f.enc()], move || ok(enc_lf(&Fam { ov, pv }.map_arrow(&a.to_lf()))));
+                c.emit("lax.functor.map_arrow", vec![n(ov), n(pv), f.enc()], move || op_lax_functor_map_arrow(ov, pv, &a));
             }
             _ => {
                 let pending = c.rng.chance(1, 4);
@@ -145,13 +189,9 @@ pub fn run_dyn(c: &mut Ctx, count: usize) {
                 let mut f = gen_lf(c, pending, true);
                 relabel(c, &mut f);
                 let a = f.clone();
-                c.emit("lax.functor.try_map_arrow", vec![n(ov), n(pv), f.enc()], move || {
-                    opt(try_define_map_arrow(&Fam { ov, pv }, &a.to_lf()).map(|r| enc_lf(&r)))
-                });
+                c.emit("lax.functor.try_map_arrow", vec![n(ov), n(pv), f.enc()], move || op_lax_functor_try_map_arrow(ov, pv, &a));
                 let a = f.clone();
-                c.emit("lax.functor.map_arrow_witness", vec![n(ov), n(pv), f.enc()], move || {
-                    opt(map_arrow_witness(&Fam { ov, pv }, &a.to_lf()).map(|(r, w)| list(vec![enc_lf(&r), Cv::<VecKind>::ricf(&w).enc()])))
-                });
+                c.emit("lax.functor.map_arrow_witness", vec![n(ov), n(pv), f.enc()], move || op_lax_functor_map_arrow_witness(ov, pv, &a));
             }
         }
     }
@@ -281,6 +321,34 @@ fn oh_to_rlf(f: &ROH) -> RLf {
     }
 }
 
+// ---- op bodies (optics), shared by the generator and the replay mode
+
+pub fn op_lax_optic_map_arrow(fov: usize, rov: usize, a: &RLf) -> Sx {
+    ok(enc_lf(&OpticFam { fov, rov }.map_arrow(a.to_lf())))
+}
+pub fn op_lax_optic_map_adapted(fov: usize, rov: usize, a: &RLf) -> Sx {
+    ok(enc_lf(&OpticFam { fov, rov }.map_adapted(a.to_lf())))
+}
+pub fn op_optic_deriv(a: &RLf, x1: &[u64], d1: &[u64]) -> Sx {
+    let adapted = RdOptic.map_adapted(a.to_lf());
+    let strict = adapted.to_strict();
+    let mono = strict.is_monogamous();
+    let roh = Cv::<VecKind>::roh(&strict);
+    let mut inp = x1.to_vec();
+    inp.extend(d1.iter());
+    match GraphOps::<VecKind>::eval_logged(&roh, &inp) {
+        Sx::L(v) if v.len() == 2 => {
+            // (ok (outs log)) -> keep outs only
+            if let Sx::L(ol) = &v[1] {
+                ok(list(vec![ol[0].clone(), b(mono)]))
+            } else {
+                none()
+            }
+        }
+        _ => none(),
+    }
+}
+
 pub fn run_optic(c: &mut Ctx, count: usize) {
     for _ in 0..count {
         match c.rng.below(6) {
@@ -290,9 +358,9 @@ pub fn run_optic(c: &mut Ctx, count: usize) {
                 let mut f = gen_lf(c, pending, true);
                 relabel(c, &mut f);
                 let a = f.clone();
-                c.emit("lax.optic.map_arrow", vec![n(fov), n(rov), f.enc()], move || ok(enc_lf(&OpticFam { fov, rov }.map_arrow(a.to_lf()))));
+                c.emit("lax.optic.map_arrow", vec![n(fov), n(rov), f.enc()], move || op_lax_optic_map_arrow(fov, rov, &a));
                 let a = f.clone();
-                c.emit("lax.optic.map_adapted", vec![n(fov), n(rov), f.enc()], move || ok(enc_lf(&OpticFam { fov, rov }.map_adapted(a.to_lf()))));
+                c.emit("lax.optic.map_adapted", vec![n(fov), n(rov), f.enc()], move || op_lax_optic_map_adapted(fov, rov, &a));
             }
             _ => {
                 // derivative clause: circuits over {add, mul, neg, copy, discard, const}
@@ -302,25 +370,7 @@ pub fn run_optic(c: &mut Ctx, count: usize) {
                 let lf = oh_to_rlf(&circ);
                 let args = vec![lf.enc(), Sx::L(x.iter().map(|v| Sx::N(*v as u128)).collect()), Sx::L(dy.iter().map(|v| Sx::N(*v as u128)).collect())];
                 let (a, x1, d1) = (lf.clone(), x.clone(), dy.clone());
-                c.emit("optic.deriv", args, move || {
-                    let adapted = RdOptic.map_adapted(a.to_lf());
-                    let strict = adapted.to_strict();
-                    let mono = strict.is_monogamous();
-                    let roh = Cv::<VecKind>::roh(&strict);
-                    let mut inp = x1.clone();
-                    inp.extend(d1.iter());
-                    match GraphOps::<VecKind>::eval_logged(&roh, &inp) {
-                        Sx::L(v) if v.len() == 2 => {
-                            // (ok (outs log)) -> keep outs only
-                            if let Sx::L(ol) = &v[1] {
-                                ok(list(vec![ol[0].clone(), b(mono)]))
-                            } else {
-                                none()
-                            }
-                        }
-                        _ => none(),
-                    }
-                });
+                c.emit("optic.deriv", args, move || op_optic_deriv(&a, &x1, &d1));
             }
         }
     }
@@ -413,6 +463,64 @@ pub enum Ins {
     FnOp(usize, Vec<usize>),  // `fn_operation`
 }
 
+// ---- op bodies (Var), shared by the generator and the replay mode
+
+/// build a program through the real operator interface
+pub fn op_var_build(n_in: usize, p1: &[Ins], o1: &[usize], leak: bool) -> Sx {
+    let leaked: std::cell::RefCell<Option<Var<usize, Op>>> = std::cell::RefCell::new(None);
+    let r = build(|state| {
+        let mut vars: Vec<Var<usize, Op>> = (0..n_in).map(|_| Var::new(state.clone(), 0usize)).collect();
+        let inputs = vars.clone();
+        for ins in p1 {
+            match ins {
+                Ins::Bin(o, a, b2) => {
+                    let (x, y) = (vars[*a].clone(), vars[*b2].clone());
+                    let v = match o {
+                        0 => x + y,
+                        1 => x * y,
+                        6 => x & y,
+                        _ => x ^ y,
+                    };
+                    vars.push(v);
+                }
+                Ins::Un(o, a) => {
+                    let x = vars[*a].clone();
+                    vars.push(if *o == 2 { -x } else { !x });
+                }
+                Ins::Op2(lab, args, r) => {
+                    let av: Vec<Var<usize, Op>> = args.iter().map(|i| vars[*i].clone()).collect();
+                    let rs = operation(state, &av, vec![0usize; *r], Op(*lab));
+                    vars.extend(rs);
+                }
+                Ins::FnOp(lab, args) => {
+                    let av: Vec<Var<usize, Op>> = args.iter().map(|i| vars[*i].clone()).collect();
+                    vars.push(fn_operation(state, &av, 0usize, Op(*lab)));
+                }
+            }
+        }
+        if leak && !vars.is_empty() {
+            *leaked.borrow_mut() = Some(vars[0].clone());
+        }
+        let outv: Vec<Var<usize, Op>> = o1.iter().map(|i| vars[*i].clone()).collect();
+        (inputs, outv)
+    });
+    match r {
+        Ok(f) => ok(enc_lf_op(&f)),
+        Err(rc) => {
+            let f = rc.borrow().clone();
+            list(vec![Sx::S("err"), enc_lf_op(&f)])
+        }
+    }
+}
+pub fn op_var_forget(a: &RLf) -> Sx {
+    let g: LfOp = a.to_lf().map_edges(Op);
+    ok(enc_lf_op(&forget(&g)))
+}
+pub fn op_var_forget_monogamous(a: &RLf) -> Sx {
+    let g: LfOp = a.to_lf().map_edges(Op);
+    ok(enc_lf_op(&forget_monogamous(&g)))
+}
+
 pub fn run_var(c: &mut Ctx, count: usize) {
     for _ in 0..count {
         match c.rng.below(5) {
@@ -461,52 +569,7 @@ pub fn run_var(c: &mut Ctx, count: usize) {
                 );
                 let args = vec![n(n_in), enc_prog, l(&outs), b(leak)];
                 let (p1, o1) = (prog.clone(), outs.clone());
-                c.emit("var.build", args, move || {
-                    let leaked: std::cell::RefCell<Option<Var<usize, Op>>> = std::cell::RefCell::new(None);
-                    let r = build(|state| {
-                        let mut vars: Vec<Var<usize, Op>> = (0..n_in).map(|_| Var::new(state.clone(), 0usize)).collect();
-                        let inputs = vars.clone();
-                        for ins in &p1 {
-                            match ins {
-                                Ins::Bin(o, a, b2) => {
-                                    let (x, y) = (vars[*a].clone(), vars[*b2].clone());
-                                    let v = match o {
-                                        0 => x + y,
-                                        1 => x * y,
-                                        6 => x & y,
-                                        _ => x ^ y,
-                                    };
-                                    vars.push(v);
-                                }
-                                Ins::Un(o, a) => {
-                                    let x = vars[*a].clone();
-                                    vars.push(if *o == 2 { -x } else { !x });
-                                }
-                                Ins::Op2(lab, args, r) => {
-                                    let av: Vec<Var<usize, Op>> = args.iter().map(|i| vars[*i].clone()).collect();
-                                    let rs = operation(state, &av, vec![0usize; *r], Op(*lab));
-                                    vars.extend(rs);
-                                }
-                                Ins::FnOp(lab, args) => {
-                                    let av: Vec<Var<usize, Op>> = args.iter().map(|i| vars[*i].clone()).collect();
-                                    vars.push(fn_operation(state, &av, 0usize, Op(*lab)));
-                                }
-                            }
-                        }
-                        if leak && !vars.is_empty() {
-                            *leaked.borrow_mut() = Some(vars[0].clone());
-                        }
-                        let outv: Vec<Var<usize, Op>> = o1.iter().map(|i| vars[*i].clone()).collect();
-                        (inputs, outv)
-                    });
-                    match r {
-                        Ok(f) => ok(enc_lf_op(&f)),
-                        Err(rc) => {
-                            let f = rc.borrow().clone();
-                            list(vec![Sx::S("err"), enc_lf_op(&f)])
-                        }
-                    }
-                });
+                c.emit("var.build", args, move || op_var_build(n_in, &p1, &o1, leak));
             }
             _ => {
                 // forget on arbitrary lax terms with variable-labelled edges of any arity/labels
@@ -529,15 +592,9 @@ pub fn run_var(c: &mut Ctx, count: usize) {
                     c.knob("var:variable-edge-without-sources");
                 }
                 let a = f.clone();
-                c.emit("var.forget", vec![f.enc()], move || {
-                    let g: LfOp = a.to_lf().map_edges(Op);
-                    ok(enc_lf_op(&forget(&g)))
-                });
+                c.emit("var.forget", vec![f.enc()], move || op_var_forget(&a));
                 let a = f.clone();
-                c.emit("var.forget_monogamous", vec![f.enc()], move || {
-                    let g: LfOp = a.to_lf().map_edges(Op);
-                    ok(enc_lf_op(&forget_monogamous(&g)))
-                });
+                c.emit("var.forget_monogamous", vec![f.enc()], move || op_var_forget_monogamous(&a));
             }
         }
     }
